@@ -14,8 +14,10 @@ import (
 // Conditional role managers (role definitions with link-condition parameters, g = _, _, (_, _)) are
 // not part of the Lean model. These families check on the implementation only what the properties
 // say of every role manager: the maintained graph decides like one rebuilt from the listed rules
-// (C04, C05), and cycles do not hang or crash Enforce (C03).  Of the grouping calls only the batch add is used on
-// its own: no other grouping call reaches a conditional role manager (finding D14).
+// (C04, C05), and cycles do not hang or crash Enforce (C03).  Since D14 was repaired every grouping call
+// (single, batch, filtered, update, BuildRoleLinks) is in the alphabet.  No link condition function is
+// registered, so every link passes and a plain RBAC enforcer over the same rules (cut to two fields) is a
+// second oracle that shares no role-manager code with the one under test.
 
 const condModelText = `
 [request_definition]
@@ -42,8 +44,15 @@ func condAlphabet() []condOp {
 		{"adds g bob->admin, admin->root", func(e *casbin.Enforcer) {
 			_, _ = e.AddGroupingPolicies([][]string{g("bob", "admin"), g("admin", "root")})
 		}},
-		// (no removal of grouping rules: finding D14 — of all grouping calls only the batch add reaches a
-		// conditional role manager; not even BuildRoleLinks rebuilds it; only LoadPolicy and ClearPolicy do)
+		{"add g dave->admin", func(e *casbin.Enforcer) { _, _ = e.AddGroupingPolicy(g("dave", "admin")) }},
+		{"rm g alice->admin", func(e *casbin.Enforcer) { _, _ = e.RemoveGroupingPolicy(g("alice", "admin")) }},
+		{"rms g bob->admin, admin->root", func(e *casbin.Enforcer) {
+			_, _ = e.RemoveGroupingPolicies([][]string{g("bob", "admin"), g("admin", "root")})
+		}},
+		{"rmf g *->admin", func(e *casbin.Enforcer) { _, _ = e.RemoveFilteredGroupingPolicy(1, "admin") }},
+		{"upd g admin->root => admin->carol", func(e *casbin.Enforcer) {
+			_, _ = e.UpdateGroupingPolicy(g("admin", "root"), g("admin", "carol"))
+		}},
 		{"adds g carol->root", func(e *casbin.Enforcer) { _, _ = e.AddGroupingPolicies([][]string{g("carol", "root")}) }},
 		{"adds p admin, root", func(e *casbin.Enforcer) {
 			_, _ = e.AddPolicies([][]string{{"admin", "data1", "read"}, {"root", "data2", "read"}})
@@ -56,7 +65,7 @@ func condAlphabet() []condOp {
 
 func condDecisions(e *casbin.Enforcer) string {
 	var sb strings.Builder
-	for _, u := range []string{"alice", "bob", "admin", "root"} {
+	for _, u := range []string{"alice", "bob", "dave", "admin", "root"} {
 		for _, o := range []string{"data1", "data2"} {
 			ok, err := e.Enforce(u, o, "read")
 			switch {
@@ -97,6 +106,17 @@ func condFamily(c *Ctx, depth int, what string) {
 			}
 			if len(gp) > 0 {
 				_, _ = fresh.AddGroupingPolicies(cloneRules(gp))
+			}
+			plain, _ := casbin.NewEnforcer(mustModel(strings.Replace(condModelText, "g = _, _, (_, _)", "g = _, _", 1)))
+			if len(pp) > 0 {
+				_, _ = plain.AddPolicies(cloneRules(pp))
+			}
+			for _, r := range gp {
+				_, _ = plain.AddGroupingPolicy(r[0], r[1])
+			}
+			if want := condDecisions(plain); want != live {
+				c.Direct(what, fmt.Sprintf("conditional role definition (no condition registered: every link passes): %s\nlisted p=%v g=%v\nlive decisions            %s\nplain RBAC, same rules    %s", strings.Join(names, " ; "), pp, gp, live, want))
+				return
 			}
 			if want := condDecisions(fresh); want != live {
 				c.Direct(what, fmt.Sprintf("conditional role definition: %s\nlisted p=%v g=%v\nlive decisions  %s\nfresh enforcer  %s", strings.Join(names, " ; "), pp, gp, live, want))
